@@ -128,7 +128,9 @@ def plan(tier):
     out = []
     for name in ("moves", "retract", "frame", "other", "arcs", "rebase"):
         kk = K + 1 if name in ("retract", "frame") else K
-        out.append(Scenario(name, scen, params={"K": kk, "R": 1 if tier == "quick" else 2, "alphabet": name},
+        if tier == "thorough" and name == "frame":
+            kk = K          # (K=4 over the 11-shape frame alphabet is beyond a 15 minute tier)
+        out.append(Scenario(name, scen, params={"K": kk, "R": 1, "alphabet": name},
                             cover=["shape-" + s.tag for s in ALPHABET[name]],
                             bounds={"K": kk, "alphabet": [s.tag for s in ALPHABET[name]]},
                             excludable=[KF_G92]))
